@@ -38,6 +38,7 @@ pub open spec fn bid_wf(b: BidOrderV3, k: Seq<u8>, i: ContractInfoV3) -> bool {
     &&& b.quote.amount.v >= 1
     &&& (b.fee is Some ==> b.fee->0.denom@ == b.quote.denom@)
     &&& of_int(b.quote.amount.v as int) == pmul(pq(b.price@), b.base.amount.v as int)
+    &&& (b.base.amount.v as int) < LIMIT96() && (b.quote.amount.v as int) < LIMIT96() && coin_amt(b.fee) < LIMIT96()   // W8 (admission converts them to Decimal)
     &&& b.accumulated_base.v < b.base.amount.v                                              // W6
     &&& b.accumulated_quote.v <= b.quote.amount.v
     &&& pmul(pq(b.price@), rem_base(b)) == of_int(rem_quote(b))
